@@ -396,6 +396,10 @@ func raceGCS(seed int64) {
 	// whatever the creations' order, an upload that was answered 200 is still there at the end
 	const nFresh = 16
 	var fresh [8 * nFresh]int32
+	var bar [nFresh]sync.WaitGroup // all goroutines reach each creation at the same moment
+	for b := range bar {
+		bar[b].Add(nG)
+	}
 	for g := 0; g < nG; g++ {
 		lr := rand.New(rand.NewSource(seed*37 + int64(g)))
 		g := g
@@ -403,7 +407,13 @@ func raceGCS(seed int64) {
 		go func() {
 			defer wg.Done()
 			for b := 0; b < nFresh; b++ {
-				do("POST", "/storage/v1/b", url.Values{"project": {"p"}}, map[string]string{"Content-Type": "application/json"}, []byte(fmt.Sprintf(`{"name":"fresh%d"}`, b)))
+				bar[b].Done()
+				bar[b].Wait()
+				// even buckets: everybody creates explicitly, then uploads; odd buckets: the bucket comes
+				// into existence with the first upload, and only goroutine 0 creates it explicitly
+				if b%2 == 0 || g == 0 {
+					do("POST", "/storage/v1/b", url.Values{"project": {"p"}}, map[string]string{"Content-Type": "application/json"}, []byte(fmt.Sprintf(`{"name":"fresh%d"}`, b)))
+				}
 				if rec := do("POST", fmt.Sprintf("/upload/storage/v1/b/fresh%d/o", b), url.Values{"uploadType": {"media"}, "name": {fmt.Sprintf("n%d", g)}}, map[string]string{"Content-Type": "text/plain"}, []byte("kept")); rec.Code == 200 {
 					atomic.StoreInt32(&fresh[g*nFresh+b], 1)
 				}
